@@ -266,6 +266,17 @@ def _eq_bytes(ctx, got, exp):
   return bytes(got) == bytes(exp)
 
 
+
+def at_offset(ctx, b, decode, tag=''):
+  """the same bytes in the middle of a receive buffer: decode(buf, offset) -> (end offset, object)"""
+  from symx.core import SymBytes
+  pre = [0xa5, 1, 0, 9, 0x5a, 0xff, 0, 1]; post = [1, 2, 0, 0]
+  buf = SymBytes(pre + list(b) + post) if ctx.sym else bytes(pre) + bytes(b) + bytes(post)
+  off, o = decode(buf, len(pre))
+  ctx.check(tag + 'decoded at a buffer offset: consumed', off == len(pre) + len(b))
+  return o
+
+
 def roundtrip(ctx, o, exp, tag, plain=False, eq=True):
   b = o.pack()
   ctx.check(tag + 'len(pack)==len(obj)', len(b) == len(o))
@@ -281,6 +292,18 @@ def roundtrip(ctx, o, exp, tag, plain=False, eq=True):
   if eq: ctx.check(tag + 'equal', o2 == o)
   b2 = o2.pack()
   ctx.check(tag + 'repack', _eq_bytes(ctx, b2, list(b)))
+  # the same bytes in the middle of a receive buffer (other messages before and after): decoding at an offset consumes exactly the
+  # message and yields the same object (offsets inside a decoder are buffer-relative, length fields message-relative)
+  from symx.core import SymBytes
+  pre = [0xa5, 1, 0, 9, 0x5a]; post = [1, 2, 0]
+  buf = SymBytes(pre + list(b) + post) if ctx.sym else bytes(pre) + bytes(b) + bytes(post)
+  if not plain:
+    off3, o3 = type(o).unpack_new(buf, len(pre))
+  else:
+    o3 = type(o)()
+    off3 = o3.unpack(buf, len(pre))
+  ctx.check(tag + 'decoded at a buffer offset: consumed', off3 == len(pre) + len(b))
+  if eq: ctx.check(tag + 'decoded at a buffer offset: equal', o3 == o)
   ctx.witness('roundtrip')
   return b, o2
 
@@ -545,6 +568,9 @@ def h_nx_action(ctx, name):
   ctx.check('equal', o2 == o)
   for a, v in vals.items(): ctx.check('field %s survives' % a, getattr(o2, a) == v)
   ctx.check('repack', _eq_bytes(ctx, o2.pack(), list(b)))
+  def dec(buf, k):
+    x = cls(); return x.unpack(buf, k), x
+  ctx.check('decoded at a buffer offset: equal', at_offset(ctx, b, dec) == o)
   # and through the generic action-list decoder (as inside a flow_mod)
   offs, acts = of._unpack_actions(b, len(b))
   ctx.check('action list decoder consumes it', offs == len(b) and len(acts) == 1)
@@ -587,6 +613,8 @@ def h_nxm(ctx, idx, masked):
   ctx.check('decoded class', type(e2) is cls)
   ctx.check('repack', _eq_bytes(ctx, e2.pack(), list(b)))
   ctx.check('decoded value', e2.value == e.value)
+  e3 = at_offset(ctx, b, lambda buf, k: nx.nxm_entry.unpack_new(buf, k))
+  ctx.check('decoded at a buffer offset: same entry', type(e3) is cls and _eq_bytes(ctx, e3.pack(), list(b)))
   # inside an nx_match
   m = nx.nx_match(); m.append(e); m.append(nx.NXM_OF_ETH_TYPE(0x0800) if name != 'NXM_OF_ETH_TYPE' else nx.NXM_OF_IN_PORT(3))
   mb = m.pack()
@@ -654,6 +682,7 @@ def h_nx_msg(ctx, name):
   ctx.check('consumed', off == len(b))
   ctx.check('equal', o2 == o)
   ctx.check('repack', _eq_bytes(ctx, o2.pack(), list(b)))
+  ctx.check('decoded at a buffer offset: equal', at_offset(ctx, b, lambda buf, k: type(o).unpack_new(buf, k)) == o)
   ctx.witness('roundtrip')
 
 
